@@ -72,7 +72,11 @@ package executable
 //@ func (t *ControllableTask) Kill() (err error)
 //@   property C17
 //@   opt strings=uf
-//@   requires t != nil && t.ti != nil && log != nil && t.rpc != nil
+//@   requires t != nil && t.ti != nil && log != nil
+//   the control channel may not exist (task still starting, or already reaped): it is only used when it is there
+//@   on call .GetState : assert rpc != nil
+//@   on call (*executorcmd.RpcClient).FromDeviceState : assert arg0 != nil
+//@   on call (*executorcmd.RpcClient).Close : assert arg0 != nil
 //@   ghostvar pend int = 0
 //@   on select * : assume index == 0 ==> value0 != nil && (value0.transitionError == nil && walkEvt(cmd.Event) ==> value0.newState == cmd.Destination)
 //@   on send * : assert pend == 0 && (value == mesos.TASK_FINISHED || value == mesos.TASK_KILLED) && ((value == mesos.TASK_FINISHED) == (reachedState == "DONE")) ; pend = 1
